@@ -420,7 +420,7 @@ func TestC09(t *testing.T) {
 		"softmax tolerances of DESIGN.md 1.6; for ArgMax slices containing NaN only 'index in range' is asserted; reductions of NaN are not generated (ONNX leaves the ordering undefined)")
 	defer reportKnownFindings("C09")
 
-	check(t, "ops", 10000, 80000, func(rt *rapid.T) {
+	check(t, "ops", 40000, 150000, func(rt *rapid.T) {
 		c := c09Gen(rt)
 		res := runOp(c.op, c.node, []tensor.Tensor{cloneT(c.x)})
 		cls := []string{"op-" + c.op, fmt.Sprintf("rank-%d", len(c.x.Shape())), "dtype-" + c.x.Dtype().String()}
